@@ -386,6 +386,18 @@ func builderRefuses(b *sourcebundle.Builder, be *buildEnv) string {
 			return fmt.Sprintf("Close returned (nil, %v) instead of refusing", err)
 		}},
 	}
+	// ... and a caller retrying the very calls of the failed build (sources
+	// the builder has already seen, some of them already analysed)
+	for i, a := range be.w.Adds {
+		a := a
+		calls = append(calls, call{fmt.Sprintf("retry of Add call %d (%s)", i, a.Kind), func() interface{} {
+			d, pmsg := doAdd(context.Background(), b, be, a)
+			if pmsg != "" {
+				panic(pmsg)
+			}
+			return d
+		}})
+	}
 	for _, c := range calls {
 		var ret interface{}
 		panicked, _ := fw.Try(func() { ret = c.f() })
@@ -464,7 +476,7 @@ func c12Builder(env *fw.Env, idx int, pairs bool) fw.Result {
 	modesFor := func(kind string) []string {
 		switch kind {
 		case "fetch":
-			return []string{"error", "partial-then-error"}
+			return []string{"error", "partial-then-error", "error-deadline", "error-canceled"}
 		case "find":
 			return []string{"error-diag", "warning-diag"}
 		default:
@@ -513,7 +525,7 @@ func c12Builder(env *fw.Env, idx int, pairs bool) fw.Result {
 		failing := func(f fault) bool {
 			switch kindAt(f.At) {
 			case "fetch":
-				return f.Mode == "error" || f.Mode == "partial-then-error"
+				return f.Mode == "error" || f.Mode == "partial-then-error" || f.Mode == "error-deadline" || f.Mode == "error-canceled"
 			case "find":
 				return f.Mode != "warning-diag"
 			}
@@ -646,6 +658,11 @@ func c12Builder(env *fw.Env, idx int, pairs bool) fw.Result {
 			}
 			if br.Bundle == nil {
 				return viol("warning-poisons-build", "faults %v: only a warning was raised but Close failed: %v %s", fc.faults, br.CloseErr, br.ClosePanic)
+			}
+			// ... and a build that reports success must be complete: what
+			// the warning finder reported beside its warning counts
+			if msg, finding := c08Check(&w, c, br); msg != "" {
+				return viol("silently-partial-after-warning:"+finding, "faults %v: only a warning was raised and the build reports success, but the bundle is not the closure: %s", fc.faults, msg)
 			}
 			continue
 		}
